@@ -35,7 +35,7 @@ PROPS = {
                 "the same rule is applied to the shuffle stage (c05_tamper) and the MAC/PRF stage (c04_tamper) in isolation; "
                 "non-trivial iff the rewritten chunk was delivered; distinct by (shape, site, schedule digest)",
         "scenarios": [
-            {"name": "c02_tamper", "quick": 60, "thorough": 3000, "offset": 1, "chunk": 2, "run_timeout": 900, "max_workers": 12, "crash_ok": True, "det_seeds": 2, "min_runs": 20, "min_s": 400},
+            {"name": "c02_tamper", "quick": 60, "thorough": 1200, "offset": 1, "chunk": 2, "run_timeout": 900, "max_workers": 12, "crash_ok": True, "det_seeds": 2, "min_runs": 20, "min_s": 400},
             # the same sound rule applied to the query's stages in isolation, where thousands of sites per minute are affordable
             {"name": "c05_tamper", "quick": 3000, "thorough": 60000, "offset": 2, "chunk": 20, "run_timeout": 120, "crash_ok": True, "max_workers": 12},
             {"name": "c04_tamper", "quick": 4000, "thorough": 100000, "offset": 3, "chunk": 50, "run_timeout": 120},
